@@ -604,6 +604,70 @@ func ruleKeyDefaults(c *Ctx, r *Rep, ev *evaluator, keyNames map[string]int64) {
 	}
 	pos := c.FnPos(fn)
 	var keyDefaults, sigRSA, sigEC []int64
+	// the constants that can reach the two fields, each with the branch facts under which it is chosen - followed
+	// through phis and through the results of module helpers
+	type alt struct {
+		k      int64
+		guards []guard
+	}
+	var alts func(v ssa.Value, at *ssa.BasicBlock, acc []guard, depth int) []alt
+	alts = func(v ssa.Value, at *ssa.BasicBlock, acc []guard, depth int) []alt {
+		if depth > 6 || v == nil {
+			return nil
+		}
+		var out []alt
+		switch x := v.(type) {
+		case *ssa.Const:
+			if x.Value != nil && x.Value.Kind() == constant.Int {
+				gs := append([]guard{}, acc...)
+				if at != nil {
+					gs = append(gs, guardsOf(at)...)
+				}
+				out = append(out, alt{x.Int64(), gs})
+			}
+		case *ssa.Phi:
+			for i, e := range x.Edges {
+				p := x.Block().Preds[i]
+				gs := append(append([]guard{}, acc...), edgeGuard(p, x.Block())...)
+				out = append(out, alts(e, p, gs, depth+1)...)
+			}
+		case *ssa.Extract:
+			if call, ok := x.Tuple.(*ssa.Call); ok {
+				if g := call.Call.StaticCallee(); g != nil && c.InModule(g) && g.Blocks != nil {
+					gs := append([]guard{}, acc...)
+					if at != nil {
+						gs = append(gs, guardsOf(at)...)
+					}
+					for _, ret := range returnsOf(g) {
+						rr := retResults(ret)
+						if x.Index < len(rr) && !returnsNonNilError(ret) {
+							out = append(out, alts(rr[x.Index], ret.Block(), gs, depth+1)...)
+						}
+					}
+				}
+			}
+		case *ssa.Call:
+			if g := x.Call.StaticCallee(); g != nil && c.InModule(g) && g.Blocks != nil {
+				gs := append([]guard{}, acc...)
+				if at != nil {
+					gs = append(gs, guardsOf(at)...)
+				}
+				for _, ret := range returnsOf(g) {
+					out = append(out, alts(retResults(ret)[0], ret.Block(), gs, depth+1)...)
+				}
+			}
+		case *ssa.UnOp:
+			// a local variable assigned on several paths
+			if al, ok := x.X.(*ssa.Alloc); ok && x.Op == token.MUL && al.Referrers() != nil {
+				for _, u := range *al.Referrers() {
+					if st, ok := u.(*ssa.Store); ok && st.Addr == ssa.Value(al) {
+						out = append(out, alts(st.Val, st.Block(), acc, depth+1)...)
+					}
+				}
+			}
+		}
+		return out
+	}
 	for _, b := range fn.Blocks {
 		for _, ins := range b.Instrs {
 			st, ok := ins.(*ssa.Store)
@@ -611,41 +675,57 @@ func ruleKeyDefaults(c *Ctx, r *Rep, ev *evaluator, keyNames map[string]int64) {
 				continue
 			}
 			fa, ok := st.Addr.(*ssa.FieldAddr)
-			if !ok {
-				continue
-			}
-			k, isConst := st.Val.(*ssa.Const)
-			if !isConst {
+			if !ok || !strings.HasSuffix(ownerName(c, fa.X.Type()), "CertificateContent") {
 				continue
 			}
 			switch fieldOfAddr(fa).Name() {
 			case "KeyAlgorithm":
-				keyDefaults = append(keyDefaults, k.Int64())
+				for _, a := range alts(st.Val, b, nil, 0) {
+					keyDefaults = append(keyDefaults, a.k)
+				}
 			case "SignatureAlgorithm":
-				// which side of a HasPrefix(…, "RSA") test?
-				side := ""
-				for _, g := range guardsOf(b) {
-					if call, ok := g.Cond.(*ssa.Call); ok && calleeFullName(call) == "strings.HasPrefix" {
-						if p, ok := call.Call.Args[1].(*ssa.Const); ok && p.Value != nil && constant.StringVal(p.Value) == "RSA" {
-							if g.Truth {
-								side = "rsa"
-							} else {
-								side = "ec"
+				for _, a := range alts(st.Val, b, nil, 0) {
+					// which side of a HasPrefix(…, "RSA") test?
+					side := ""
+					for _, g := range a.guards {
+						cond, truth := g.Cond, g.Truth
+						if u, ok := cond.(*ssa.UnOp); ok && u.Op == token.NOT {
+							cond, truth = u.X, !truth
+						}
+						if call, ok := cond.(*ssa.Call); ok && calleeFullName(call) == "strings.HasPrefix" {
+							if p, ok := call.Call.Args[1].(*ssa.Const); ok && p.Value != nil && constant.StringVal(p.Value) == "RSA" {
+								if truth {
+									side = "rsa"
+								} else {
+									side = "ec"
+								}
 							}
 						}
 					}
-				}
-				switch side {
-				case "rsa":
-					sigRSA = append(sigRSA, k.Int64())
-				case "ec":
-					sigEC = append(sigEC, k.Int64())
-				default:
-					r.Bad("sig-default-guard", c.Pos(st.Pos()), "default signature algorithm chosen by strings.HasPrefix(keyAlgorithm, \"RSA\")", "constant store not under such a test")
+					switch side {
+					case "rsa":
+						sigRSA = append(sigRSA, a.k)
+					case "ec":
+						sigEC = append(sigEC, a.k)
+					default:
+						r.Bad("sig-default-guard", c.Pos(st.Pos()), "default signature algorithm chosen by strings.HasPrefix(keyAlgorithm, \"RSA\")", "constant not under such a test")
+					}
 				}
 			}
 		}
 	}
+	uniqI := func(in []int64) []int64 {
+		m := map[int64]bool{}
+		var out []int64
+		for _, x := range in {
+			if !m[x] {
+				m[x] = true
+				out = append(out, x)
+			}
+		}
+		return out
+	}
+	keyDefaults, sigRSA, sigEC = uniqI(keyDefaults), uniqI(sigRSA), uniqI(sigEC)
 	okKey := len(keyDefaults) == 1 && (keyDefaults[0] == keyNames["P-256"] || keyDefaults[0] == keyNames["P-224"])
 	r.Check(okKey, "default-key-algorithm", pos, "the constant of P-256 or P-224", sprintf("%v", keyDefaults))
 	r.Check(len(sigRSA) == 1 && sigRSA[0] == sigNames["RSAwithSHA256"], "default-sig-rsa", pos, "RSAwithSHA256 for RSA-* keys", sprintf("%v", sigRSA))
@@ -1468,6 +1548,12 @@ func tableElemField(v ssa.Value) (*ssa.Global, string) {
 							if g := loadedGlobal(ia.X); g != nil {
 								return g, fieldOfAddr(fa).Name()
 							}
+						}
+					}
+					// element of an array value: t = *table; t[i]
+					if ix, ok := st.Val.(*ssa.Index); ok {
+						if g := loadedGlobal(ix.X); g != nil {
+							return g, fieldOfAddr(fa).Name()
 						}
 					}
 				}
